@@ -106,6 +106,11 @@ fn import_sequence_node_fields(
     for mut child in children {
         let tag_name = child.tag_name().name();
 
+        if tag_name == "attributeGroup" {
+            // unsupported: attribute groups are not resolved
+            continue;
+        }
+
         if tag_name == "choice" {
             import_choice_fields(&mut child, doc, base_fields)?;
             continue;
@@ -113,7 +118,8 @@ fn import_sequence_node_fields(
 
         if tag_name == "sequence" {
             // nested sequence
-            return import_sequence_node_fields(&mut child, doc, base_fields);
+            import_sequence_node_fields(&mut child, doc, base_fields)?;
+            continue;
         }
 
         // regular field
